@@ -14,6 +14,7 @@ import (
 	"github.com/jcmturner/gokrb5/v8/krberror"
 	"github.com/jcmturner/gokrb5/v8/messages"
 
+	_ "verif/props/pcommon" // non-UTC local time zone for the process
 	"verif/ref/accept"
 	"verif/ref/kcrypto"
 	"verif/ref/kmsg"
